@@ -56,6 +56,17 @@ CLAIMS = {
              'no unchecked arithmetic.',
         note='Not decided: that futures actually resolve and the task completes (liveness), byte-offset fault sequences. queue[idx] is assumed (C04 runtime-integer invariant).',
         ref='DESIGN.md section 5 C07'),
+    'C15': dict(
+        technique='who-constructs enumeration + edge-dominance on the test-and-set flag + MIR-extracted reason-code tables (static analysis)',
+        text='All DISCONNECT construction sites outside the codec are enumerated (reviewed list, a new site is reported); every live emission (MqttShared::close, the '
+             'packet-carrying returns of the default control service, control_pkt Pkt::Disconnect) is dominated by the false edge of is_disconnect_sent(); handler answers that '
+             'may carry DISCONNECT are built with disconnect=true and control_pkt shuts the io down before returning them; the peer-DISCONNECT arm records the receipt and '
+             'performs the test-and-set before the control call; the control service forwards a user packet only on paths where is_disconnect_recv() was false or a '
+             'protocol error is reported (paths enumerated with conditions); close() closes the io after writing; cause->code tables extracted from MIR match MQTT 5 '
+             '(0x8D, 0x95, 0x93, 0x9B, 0x9A, 0xA1, 0x94) and no error path uses 0x00/0x04.',
+        note='Not decided: combinations of initiators in time (the flag is a runtime bit; what is decided is that no path forgets to consult it). Assumes ntex-io refuses '
+             'writes once shutdown started (confirmed by experiment in round 0).',
+        ref='DESIGN.md section 5 C15'),
 }
 
 NA_REASONS = {}
